@@ -9,6 +9,7 @@ git -C /repo worktree add -f $WT HEAD -q || exit 2
 cmd=$(python3 -c "import json,sys; print(json.load(open('$D/meta.json')).get('demo_cmd',''))" 2>/dev/null)
 build_demo() {  # $1 = output exe
   if grep -q "amgcl/mpi\|mpi.h" $D/demo.cpp 2>/dev/null; then mpicxx -std=c++17 -O1 -fopenmp -I $WT -I/usr/include/eigen3 $D/demo.cpp -o $1 2>/tmp/cs_build.err
+  elif grep -q '"amgcl.h"' $D/demo.cpp 2>/dev/null; then g++ -std=c++17 -O1 -fopenmp -I $WT -I $WT/lib -I/usr/include/eigen3 $D/demo.cpp $WT/lib/amgcl.cpp -o $1 2>/tmp/cs_build.err
   else g++ -std=c++17 -O1 -fopenmp -I $WT -I/usr/include/eigen3 $D/demo.cpp -o $1 2>/tmp/cs_build.err; fi
 }
 run_demo() {    # $1 = exe ; uses np from meta demo_cmd if it is an MPI demo
